@@ -155,7 +155,7 @@ def main(argv=None):
                     ctx.violate('model and implementation disagree', case=c.line, kind=c.kind, expected_by_model=mo,
                                 observed=io, theorem=getattr(mod, 'SPEC_THEOREM', None))
         if not trivial_outcome(io):
-            ctx.nontrivial.add(hashlib.sha1((c.line.split(' ', 1)[0] + '|' + io).encode()).hexdigest())
+            ctx.nontrivial.add(hashlib.sha1(c.line.encode()).hexdigest())
         ctx.count('ops', c.line.split(' ', 1)[0].split('@')[0])
         ctx.count('outcome_class', io.split(' ', 1)[0])
     # property-specific direct checks on the implementation (the "search")
@@ -210,7 +210,7 @@ def main(argv=None):
         'trusted_base': mod.TRUSTED if hasattr(mod, 'TRUSTED') else [],
         'theorems': ps['theorems'], 'axioms_reported': ps['axioms'],
         'evaluations': evals, 'distinct_nontrivial': len(ctx.nontrivial),
-        'rule': getattr(mod, 'RULE', 'generated cases; non-trivial = outcome is not none/empty/false/error; distinct by (op, outcome) hash'),
+        'rule': getattr(mod, 'RULE', 'generated cases') + ' | counted: distinct case lines (op + arguments) whose implementation outcome is not none / empty / false / error',
         'samples': samples or ['(no cases)'],
         'broken_obligations': ['%s: %s' % b for b in broken],
         'known_class_hits': ctx.known_hits, 'stats': ctx.stats,
